@@ -367,3 +367,11 @@ for op in ("get", "get_prefix", "get_range"):
     add(f"fs_source_{op}_dfcc", ["C07"], ["tu/fileset_dfcc.c"], f"h_fileset_source_{op}_dfcc", mode="dfcc", enforce=f"fileset_source_{op}/fileset_source_{op}__spec",
         replace=["mtbl_fileset_reload/mtbl_fileset_reload__spec", "my_calloc/my_calloc__cap", "mtbl_merger_source/mtbl_merger_source__cap", f"mtbl_source_{op}/mtbl_source_{op}__cap", "mtbl_iter_init/mtbl_iter_init__cap"],
         unwind=24, timeout=900, slice=1, strength="U", functions=[f"fileset_source_{op}", "fileset_iter_init"], assumptions=FS_DFCC2_ASSUME)
+# ---------------------------------------------------------------- merger iterator construction / bounded lookups under DFCC loop contracts (any number of sources)
+MGL_REPL = ["merger_iter_init/merger_iter_init__cap", "iter_vec_add/iter_vec_add__cap", "merger_iter_add_entry/merger_iter_add_entry__cap", "merger_iter_free/merger_iter_free__cap", "mtbl_iter_init/mtbl_iter_init__cap",
+            "mtbl_source_iter/mtbl_source_iter__cap", "mtbl_source_get_prefix/mtbl_source_get_prefix__cap", "mtbl_source_get_range/mtbl_source_get_range__cap"]
+for fn in ("merger_iter", "merger_get", "merger_get_prefix", "merger_get_range"):
+    add(f"{fn.replace('merger_', 'mg_')}_dfcc", ["C05", "C04", "C18"], ["tu/merger_lookup_dfcc.c"], f"h_{fn}_dfcc", mode="dfcc", enforce=f"{fn}/{fn}__spec", replace=MGL_REPL,
+        loops="loops/mg_lookup.json", unwind=16, timeout=600, slice=1, strength="U", functions=[fn],
+        assumptions=["per-source lookups, iterator registration, merger_iter_add_entry, merger_iter_init / free and mtbl_iter_init replaced by capture contracts whose call-site requirements are the sequencing obligations; up to 2^28 sources",
+                     "merger_iter_add_entry's own behaviour (heap push of a filled entry): groups mg_lookup, heap_push (bounded)"])
